@@ -13,10 +13,18 @@ package bfault
 import (
 	"io"
 	"os"
+	"sync"
 	"sync/atomic"
 )
 
-// Hook decides whether the effect op on path fails. op is one of
+type (
+	realMutex     = sync.Mutex
+	syncOnce      = sync.Once
+	syncWaitGroup = sync.WaitGroup
+)
+
+// Hook decides whether the effect op on path fails (it may also block the caller for a while:
+// that is how the harness parks an ingest inside Store.put). op is one of
 // "link", "symlink", "ods-create", "q4-create", "ods-write", "q4-write".
 type Hook func(op, path string) error
 
@@ -77,3 +85,103 @@ func (w writer) Write(p []byte) (int, error) {
 
 // Writer wraps w: every Write first asks the hook (a failing write writes nothing).
 func Writer(op, path string, w io.Writer) io.Writer { return writer{op, path, w} }
+
+// ---------------------------------------------------------------------------
+// channel-based reader/writer lock
+//
+// Inside a testing/synctest bubble a goroutine waiting for a real sync.RWMutex is NOT durably
+// blocked, so synctest.Wait() would never return while one ingest is parked inside Store.put
+// (holding the per-height / per-hash stripe locks) and a second ingest of the same height waits
+// for the stripe. RWMutex below has the semantics of sync.RWMutex that the store relies on
+// (writers exclusive, readers shared, happens-before from unlock to the next lock; the zero value
+// is usable) and makes waiters block on a channel, which IS durable blocking. It is wired in by
+// rewriting the `"sync"` import of store/striplock.go (see harness/bridge/check.json).
+// Writer preference (a waiting writer holding back new readers) is not modelled: it changes
+// nothing unless two goroutines wait for one stripe at once.
+
+// RWMutex is a channel-based reader/writer mutual exclusion lock.
+type RWMutex struct {
+	mu      realMutex
+	readers int
+	writer  bool
+	waiters []chan struct{}
+}
+
+func (m *RWMutex) wake() {
+	for _, w := range m.waiters {
+		close(w)
+	}
+	m.waiters = nil
+}
+
+// Lock locks for writing.
+func (m *RWMutex) Lock() {
+	for {
+		m.mu.Lock()
+		if !m.writer && m.readers == 0 {
+			m.writer = true
+			m.mu.Unlock()
+			return
+		}
+		ch := make(chan struct{})
+		m.waiters = append(m.waiters, ch)
+		m.mu.Unlock()
+		<-ch
+	}
+}
+
+// Unlock unlocks a write lock.
+func (m *RWMutex) Unlock() {
+	m.mu.Lock()
+	if !m.writer {
+		m.mu.Unlock()
+		panic("bfault: Unlock of unlocked RWMutex")
+	}
+	m.writer = false
+	m.wake()
+	m.mu.Unlock()
+}
+
+// RLock locks for reading.
+func (m *RWMutex) RLock() {
+	for {
+		m.mu.Lock()
+		if !m.writer {
+			m.readers++
+			m.mu.Unlock()
+			return
+		}
+		ch := make(chan struct{})
+		m.waiters = append(m.waiters, ch)
+		m.mu.Unlock()
+		<-ch
+	}
+}
+
+// RUnlock undoes one RLock.
+func (m *RWMutex) RUnlock() {
+	m.mu.Lock()
+	if m.readers <= 0 {
+		m.mu.Unlock()
+		panic("bfault: RUnlock of unlocked RWMutex")
+	}
+	m.readers--
+	if m.readers == 0 {
+		m.wake()
+	}
+	m.mu.Unlock()
+}
+
+// Busy reports whether the lock is held by anybody right now (harness observation only).
+func (m *RWMutex) Busy() bool {
+	m.mu.Lock()
+	defer m.mu.Unlock()
+	return m.writer || m.readers > 0
+}
+
+// names of package sync that a rewritten file may use besides RWMutex
+type (
+	Mutex     = realMutex
+	Once      = syncOnce
+	WaitGroup = syncWaitGroup
+)
